@@ -109,7 +109,8 @@ def tok(text):
 
 CHANNELS = ["label", "hint", "guidance", "cmsg", "rmsg", "choice_label", "choice_extra", "default", "title", "version", "appearance",
             "bind_attr", "instance_attr", "body_attr", "settings_attr", "group_label", "label_ref", "hint_ref", "itext_label", "itext_hint", "choice_itext",
-            "note_label_ref2", "label_instance", "itext_label_ref", "choice_itext_ref", "label_ref_twin", "loop_label", "loop_hint"]
+            "note_label_ref2", "label_instance", "itext_label_ref", "choice_itext_ref", "label_ref_twin", "loop_label", "loop_hint",
+            "hint_beside_guidance_ref", "guidance_beside_hint_ref", "label_ref_with_image", "choice_label_ref_with_image"]
 
 
 INSTANCE_OK = {"p", "lt", "gt", "sp", "apos"}
@@ -161,6 +162,12 @@ def build(classes, seed=0, only=None, with_instance=None):
     q.append({"type": "text", "name": "q_itref", "label::English (en)": put_full("itext_label_ref", "%s ${q0}") or "IR"})
     q.append({"type": "text", "name": "q_it", "label::English (en)": put("itext_label"), "hint::English (en)": put("itext_hint")})
     q.append({"type": "select_one M", "name": "q_selm", "label::English (en)": "QSM"})
+    # one itext entry with several forms of which only some carry a reference (hint + guidance, label + image): each value is
+    # written on its own terms, the treatment of one form must not decide the treatment of another
+    q.append({"type": "text", "name": "q_hg1", "label": "HG1", "hint": put("hint_beside_guidance_ref"), "guidance_hint": "G ${q0} g"})
+    q.append({"type": "text", "name": "q_hg2", "label": "HG2", "hint": "${q0} h", "guidance_hint": put("guidance_beside_hint_ref")})
+    q.append({"type": "text", "name": "q_li", "label": put_full("label_ref_with_image", "%s ${q0}") or "LI", "image": "a.png"})
+    q.append({"type": "select_one N", "name": "q_seln", "label": "QSN"})
     q.append({"type": "note", "name": "q_two", "label": put_full("note_label_ref2", "${q0}%s${q_label}") or "N"})
     # rows of a (legacy) loop are copied once per choice with %(name)s / %(label)s substituted (and %% for a percent sign): any other
     # text, "%" included, is the author's.  (A doubled percent sign is the documented escape, so it is not written here.)
@@ -182,8 +189,8 @@ def build(classes, seed=0, only=None, with_instance=None):
                 cols.append(k)
     q = [{k: v for k, v in r.items() if v is not None} for r in q]
     sheets = [{"name": "survey", "header": cols, "rows": [[r.get(c) for c in cols] for r in q]}]
-    sheets.append({"name": "choices", "header": ["list_name", "name", "label", "xcol", "label::English (en)"],
-                   "rows": [["L", "l1", put("choice_label"), put("choice_extra"), None], ["L", "l2", "plain", None, None], ["P", "p1", "P one", None, None], ["P", "p2", "P two", None, None], ["M", "m0", None, None, put_full("choice_itext_ref", "%s ${q0}") or "M0"], ["M", "m1", None, None, put("choice_itext")]]})
+    sheets.append({"name": "choices", "header": ["list_name", "name", "label", "xcol", "label::English (en)", "image"],
+                   "rows": [["N", "n1", put_full("choice_label_ref_with_image", "%s ${q0}") or "N1", None, None, "b.png"], ["N", "n2", "N two", None, None, None], ["L", "l1", put("choice_label"), put("choice_extra"), None], ["L", "l2", "plain", None, None], ["P", "p1", "P one", None, None], ["P", "p2", "P two", None, None], ["M", "m0", None, None, put_full("choice_itext_ref", "%s ${q0}") or "M0"], ["M", "m1", None, None, put("choice_itext")]]})
     st = {"form_title": put("title"), "version": put("version"), "attribute::sattr": put("settings_attr")}
     st = {k: v for k, v in st.items() if v is not None}
     if st:
@@ -321,6 +328,15 @@ def recover(xform, chans):
             r = lab("/data/q_two", "label")
         elif ch == "label_instance":
             r = lab("/data/q_inst", "label")
+        elif ch == "hint_beside_guidance_ref":
+            r = lab("/data/q_hg1", "hint")
+        elif ch == "guidance_beside_hint_ref":
+            r = itform("/data/q_hg2:hint", "guidance")
+        elif ch == "label_ref_with_image":
+            r = lab("/data/q_li", "label")
+        elif ch == "choice_label_ref_with_image":
+            item = dict(sec["N"]["items"][0]) if "N" in sec and sec["N"]["items"] else {}
+            r = itform(item["itextId"], None) if "itextId" in item else (T(item.get("label")) if "label" in item else None)
         out[ch] = r
     return out
 
